@@ -24,12 +24,12 @@ import (
 // confirmed on the real code are ever reported.
 
 type pegGen struct {
-	pa    *pegAnalysis
-	min   map[*pegRule]string
-	minOK map[*pegRule]bool
+	pa     *pegAnalysis
+	min    map[*pegRule]string
+	minOK  map[*pegRule]bool
 	rich   map[*pegRule]string // a sentence that takes repetitions / options once and prefers non-empty alternatives
 	richOK map[*pegRule]bool
-	ctx   map[*pegRule][]string
+	ctx    map[*pegRule][]string
 }
 
 func newPegGen(pa *pegAnalysis) *pegGen {
@@ -731,7 +731,7 @@ func (e *Engine) runPegHarness(inputs []string) (*pegHarnessResult, error) {
 // stale-code event the instrumented parser reports is attributed to the obligation of the element that failed.
 //   - structurally failing, witness found      -> failed, replayable
 //   - structurally failing, no witness         -> undecided (the structural condition is stronger than the property:
-//                                                  the failing element may always abort the whole parse)
+//     the failing element may always abort the whole parse)
 //   - structurally fine, witness found         -> failed as well (the structural argument missed an emission)
 func (e *Engine) decidePegViolations(pa *pegAnalysis, obls []*Obligation, pathOf func(o *Obligation) string) {
 	var bad []*Obligation
